@@ -28,6 +28,8 @@ def _mu_constraints(rso, ez, pieces, d):
             out.append(rso.norm(ez - np.array(pc['c'], float), 1) <= pc['r'])
         elif k == 'ninf':
             out.append(rso.norm(ez - np.array(pc['c'], float), 'inf') <= pc['r'])
+        elif k == 'n2':
+            out.append(rso.norm(ez - np.array(pc['c'], float)) <= pc['r'])
         else:
             raise ValueError(k)
     return out
@@ -83,6 +85,10 @@ def declare_ambiguity(rso, b, amb):
             fset.probset(rso.norm(p - phat, 'inf') <= pr['r'])
         elif pr['kind'] == 'n1':
             fset.probset(rso.norm(p - phat, 1) <= pr['r'])
+        elif pr['kind'] == 'n2':
+            fset.probset(rso.norm(p - phat) <= pr['r'])
+        elif pr['kind'] == 'kl':
+            fset.probset(rso.kldiv(p, phat, pr['r']))
         else:
             raise ValueError(pr['kind'])
         b.ops += 1
